@@ -1,12 +1,19 @@
 // Driver for C13 (CatalogWatch.tla).  A plan is an initial source catalog, a list of tasks (each selecting some
 // collections) and a sequence of steps: catalog writes ("w") interleaved with the steps of the LAST task's
-// StartRead ("r": openc, openp, list, plist, startw).
+// StartRead ("r": sub, openc, openp, list, plist, startw) and with delivery barriers ("d": sync).
 //
 // Binding: embedded etcd as the source catalog (harness/catalog), the real reader.EtcdOp, one real
 // reader.CollectionReader per task (NewCollectionReader + StartRead), a recording fake api.ChannelManager and an
 // api.MetaOp decorator around the real EtcdOp.  The decorator forces TLC's interleaving without hooks: whenever the
 // last task's reader calls WatchCollection / WatchPartition / GetAllCollection / GetAllPartition / StartWatch, it first
 // performs the catalog writes the plan places before that step.  Writes after "startw" are done by the driver.
+// "sub" is the first of SubscribeCollectionEvent / SubscribePartitionEvent of a task (the EtcdOp, its watches and its
+// start-watch gate are shared by all tasks of a plan, as by all tasks of a replicate entity).
+// A barrier "sync" (only meaningful while an earlier task keeps the watches running) waits until both watch goroutines
+// have handled everything written so far: a sentinel collection and a sentinel partition written now have reached the
+// recorder, and every collection / partition the plan created has been started / added or offered to the consumers
+// subscribed at that moment (observed through the tasks' selection functions).  The barrier only makes the replay
+// follow the plan's delivery order; a barrier that gives up (bounded wait) leaves a trace that is still a legal run.
 // Every write, reader step (with the listing's result) and manager call is appended to one log under one mutex.
 //
 // Watch delivery is asynchronous.  At the end the driver waits on explicit signals: it writes a sentinel collection
@@ -67,6 +74,26 @@ type world struct {
 	sigAdd   map[int64]chan struct{} // sentinel partition id -> seen
 	started  map[ident]bool
 	added    map[ident]bool
+	// observations for the delivery barrier
+	startCnt map[int64]int            // collection id -> StartReadCollection calls
+	addCnt   map[int64]int            // partition id -> AddPartition calls
+	offerC   map[string]map[int64]int // task -> collection id -> times its selection was asked with a full collection record
+	offerP   map[string]map[int64]int // task -> collection id -> times its selection was asked on behalf of a partition
+	subC     map[string]bool          // tasks whose collection consumer is registered
+	subP     map[string]bool          // tasks whose partition consumer is registered
+}
+
+func (w *world) offered(task string, info *pb.CollectionInfo) {
+	w.mu.Lock()
+	defer w.mu.Unlock()
+	m := w.offerC
+	if info.GetCreateTime() == 0 { // the reader's stand-in record for the collection of a partition
+		m = w.offerP
+	}
+	if m[task] == nil {
+		m[task] = map[int64]int{}
+	}
+	m[task][info.GetID()]++
 }
 
 func (w *world) add(e hx.Event) {
@@ -128,6 +155,7 @@ func (m *recMgr) StartReadCollection(ctx context.Context, db *model.DatabaseInfo
 	}
 	c, i := m.identOf(info.ID)
 	m.w.started[ident{c, i}] = true
+	m.w.startCnt[info.ID]++
 	m.w.log = append(m.w.log, hx.Event{"op": "start", "task": util.GetTaskIDFromCtx(ctx), "c": c, "i": i, "ids": []hx.Event{}})
 	return nil
 }
@@ -150,6 +178,7 @@ func (m *recMgr) AddPartition(ctx context.Context, dbInfo *model.DatabaseInfo, c
 		c, i = id.c, id.i
 	}
 	m.w.added[ident{c, i}] = true
+	m.w.addCnt[partitionInfo.PartitionID]++
 	m.w.log = append(m.w.log, hx.Event{"op": "addp", "task": util.GetTaskIDFromCtx(ctx), "c": c, "i": i, "ids": []hx.Event{}})
 	return nil
 }
@@ -197,6 +226,102 @@ type scenario struct {
 	cstate map[ident]string
 	pstate map[ident]string
 	lateDB map[int64]string // params.latedb: databases whose record is written only with their first collection
+	dbs    map[int64]bool   // databases that have a record
+	nsync  int
+	pendC  map[ident]pendT // created collections whose watch event a barrier has not yet seen handled
+	pendP  map[ident]pendT // created partitions, likewise
+}
+
+// pendT: the counters at the time of the write
+type pendT struct {
+	calls  int
+	offers map[string]int // per task registered at the time of the write (a later one may or may not be asked)
+}
+
+func (s *scenario) snapshot(cnt map[int64]int, offers map[string]map[int64]int, subs map[string]bool, callID, collID int64) pendT {
+	s.w.mu.Lock()
+	defer s.w.mu.Unlock()
+	p := pendT{calls: cnt[callID], offers: map[string]int{}}
+	for t := range subs {
+		p.offers[t] = offers[t][collID]
+	}
+	return p
+}
+
+// handled: the event of a pending object has been consumed (call recorded) or offered to every consumer that was
+// registered when the object was written (the consumers are asked one after the other by one handler)
+func handled(p pendT, cnt map[int64]int, offers map[string]map[int64]int, callID, collID int64) bool {
+	if cnt[callID] > p.calls {
+		return true
+	}
+	for t, n := range p.offers {
+		if offers[t][collID] <= n {
+			return false
+		}
+	}
+	return len(p.offers) > 0
+}
+
+// sync is the delivery barrier "d sync" (see the package comment).
+func (s *scenario) sync() {
+	s.nsync++
+	w := s.w
+	scid := int64(9100 + s.nsync)
+	spid := scid*100 + 1
+	sch, pch := make(chan struct{}), make(chan struct{})
+	w.mu.Lock()
+	w.sigStart[scid], w.sigAdd[spid] = sch, pch
+	w.mu.Unlock()
+	s.cw.PutFields(scid)
+	s.cw.PutCollection(catalog.Collection{DbID: 1, ID: scid, Name: fmt.Sprintf("%ss%d", sentinelPrefix, s.nsync), State: pb.CollectionState_CollectionCreated,
+		CreateTime: catalog.HybridTs(90), Shards: 1})
+	ok := waitCh(sch, 10*time.Second)
+	if ok {
+		s.cw.PutPartition(catalog.Partition{CollID: scid, ID: spid, Name: "ps", State: pb.PartitionState_PartitionCreated, CreateTime: catalog.HybridTs(91)})
+		ok = waitCh(pch, 10*time.Second)
+	}
+	// the pool of the EtcdOp handles events concurrently: the plan's own events may still be in their handlers
+	deadline := time.Now().Add(2 * time.Second)
+	for ok {
+		w.mu.Lock()
+		for id, p := range s.pendC {
+			cid := w.collID(id)
+			if s.cstate[id] == "tombstone" || handled(p, w.startCnt, w.offerC, cid, cid) {
+				delete(s.pendC, id)
+			}
+		}
+		for id, p := range s.pendP {
+			cid := w.collID(id)
+			if s.cstate[id] == "tombstone" || handled(p, w.addCnt, w.offerP, partID(cid), cid) {
+				delete(s.pendP, id)
+			}
+		}
+		n := len(s.pendC) + len(s.pendP)
+		w.mu.Unlock()
+		if n == 0 {
+			break
+		}
+		if time.Now().After(deadline) {
+			ok = false
+			break
+		}
+		time.Sleep(time.Millisecond)
+	}
+	s.pendC, s.pendP = map[ident]pendT{}, map[ident]pendT{}
+	kind := "sync"
+	if !ok {
+		kind = "sync-gaveup"
+	}
+	w.add(hx.Event{"op": "d", "kind": kind, "task": "", "c": "", "i": 0, "ids": []hx.Event{}})
+}
+
+func (s *scenario) step(st map[string]interface{}) {
+	switch hx.S(st, "op") {
+	case "w":
+		s.write(hx.S(st, "kind"), ident{hx.S(st, "c"), hx.I(st, "i")})
+	case "d":
+		s.sync()
+	}
 }
 
 func (s *scenario) putColl(id ident, st string) {
@@ -221,8 +346,18 @@ func (s *scenario) newColl(id ident, st string) {
 	cid := s.w.collID(id)
 	if name, ok := s.lateDB[s.w.slots[id.c].dbid]; ok {
 		// the database is created right before its first collection (created while the tasks are running)
-		s.cw.PutDatabase(s.w.slots[id.c].dbid, name, catalog.HybridTs(10*id.i-1))
-		delete(s.lateDB, s.w.slots[id.c].dbid)
+		dbid := s.w.slots[id.c].dbid
+		// logged: the database record is new, and whether its key is the last one of the database listing (etcd key order)
+		last := true
+		for other := range s.dbs {
+			if strconv.FormatInt(other, 10) > strconv.FormatInt(dbid, 10) {
+				last = false
+			}
+		}
+		s.w.add(hx.Event{"op": "db", "kind": "new", "task": "", "c": id.c, "i": 0, "ids": []hx.Event{}, "last": last})
+		s.cw.PutDatabase(dbid, name, catalog.HybridTs(10*id.i-1))
+		s.dbs[dbid] = true
+		delete(s.lateDB, dbid)
 	}
 	s.cw.PutFields(cid)
 	s.cw.PutPartition(catalog.Partition{CollID: cid, ID: defPartID(cid), Name: "_default", State: pb.PartitionState_PartitionCreated,
@@ -245,6 +380,8 @@ func (s *scenario) write(kind string, id ident) {
 		s.newColl(id, "creating")
 		s.cstate[id] = "creating"
 	case "ok":
+		cid := s.w.collID(id)
+		s.pendC[id] = s.snapshot(s.w.startCnt, s.w.offerC, s.w.subC, cid, cid)
 		s.putColl(id, "created")
 		s.cstate[id] = "created"
 	case "fail", "gc":
@@ -257,6 +394,8 @@ func (s *scenario) write(kind string, id ident) {
 		s.putColl(id, "dropped")
 		s.cstate[id] = "dropped"
 	case "pnew":
+		cid := s.w.collID(id)
+		s.pendP[id] = s.snapshot(s.w.addCnt, s.w.offerP, s.w.subP, partID(cid), cid)
 		s.putPart(id, "created")
 		s.pstate[id] = "created"
 	case "pdrop":
@@ -282,20 +421,14 @@ func (s *scenario) before(kind string) {
 		return
 	}
 	for ; s.pos < at; s.pos++ {
-		st := s.steps[s.pos]
-		if hx.S(st, "op") == "w" {
-			s.write(hx.S(st, "kind"), ident{hx.S(st, "c"), hx.I(st, "i")})
-		}
+		s.step(s.steps[s.pos])
 	}
 	s.pos = at + 1
 }
 
 func (s *scenario) rest() {
 	for ; s.pos < len(s.steps); s.pos++ {
-		st := s.steps[s.pos]
-		if hx.S(st, "op") == "w" {
-			s.write(hx.S(st, "kind"), ident{hx.S(st, "c"), hx.I(st, "i")})
-		}
+		s.step(s.steps[s.pos])
 	}
 }
 
@@ -312,6 +445,41 @@ func (o *stepOp) rlog(kind string, ids []hx.Event) {
 		ids = []hx.Event{}
 	}
 	o.s.w.add(hx.Event{"op": "r", "kind": kind, "task": o.s.cur, "c": "", "i": 0, "ids": ids})
+}
+
+// subscribed: the first registration of a task is its step "sub"
+func (o *stepOp) subscribed(taskID string, part bool) func() {
+	w := o.s.w
+	w.mu.Lock()
+	first := !w.subC[taskID] && !w.subP[taskID]
+	w.mu.Unlock()
+	if first && o.isLast() {
+		o.s.before("sub")
+	}
+	return func() {
+		w.mu.Lock()
+		if part {
+			w.subP[taskID] = true
+		} else {
+			w.subC[taskID] = true
+		}
+		w.mu.Unlock()
+		if first {
+			o.rlog("sub", nil)
+		}
+	}
+}
+
+func (o *stepOp) SubscribeCollectionEvent(taskID string, consumer api.CollectionEventConsumer) {
+	done := o.subscribed(taskID, false)
+	o.MetaOp.SubscribeCollectionEvent(taskID, consumer)
+	done()
+}
+
+func (o *stepOp) SubscribePartitionEvent(taskID string, consumer api.PartitionEventConsumer) {
+	done := o.subscribed(taskID, true)
+	o.MetaOp.SubscribePartitionEvent(taskID, consumer)
+	done()
 }
 
 func (o *stepOp) WatchCollection(ctx context.Context, filter api.CollectionFilter) {
@@ -406,7 +574,9 @@ func runPlan(srv *catalog.Server, p *hx.Plan, n int) []hx.Event {
 		}
 	}
 	w := &world{slots: map[string]slotInfo{}, byCollID: map[int64]ident{}, byPartID: map[int64]ident{},
-		sigStart: map[int64]chan struct{}{}, sigAdd: map[int64]chan struct{}{}, started: map[ident]bool{}, added: map[ident]bool{}}
+		sigStart: map[int64]chan struct{}{}, sigAdd: map[int64]chan struct{}{}, started: map[ident]bool{}, added: map[ident]bool{},
+		startCnt: map[int64]int{}, addCnt: map[int64]int{}, offerC: map[string]map[int64]int{}, offerP: map[string]map[int64]int{},
+		subC: map[string]bool{}, subP: map[string]bool{}}
 	for idx, name := range []string{"a", "b", "c", "d"} {
 		if c, ok := slotsCfg[name].(map[string]interface{}); ok {
 			w.slots[name] = slotInfo{idx: idx, db: hx.S(c, "db"), dbid: int64(hx.I(c, "dbid")), name: hx.S(c, "name")}
@@ -416,7 +586,8 @@ func runPlan(srv *catalog.Server, p *hx.Plan, n int) []hx.Event {
 	root := fmt.Sprintf("c13-%d-%d", os.Getpid(), n)
 	cw := srv.Writer(root)
 	defer cw.Clear()
-	sc := &scenario{w: w, cw: cw, steps: p.Steps, last: hx.S(raw, "last"), cstate: map[ident]string{}, pstate: map[ident]string{}}
+	sc := &scenario{w: w, cw: cw, steps: p.Steps, last: hx.S(raw, "last"), cstate: map[ident]string{}, pstate: map[ident]string{},
+		pendC: map[ident]pendT{}, pendP: map[ident]pendT{}}
 
 	// databases (always alive) and the initial catalog
 	dbNames := map[int64]string{1: "dba"}
@@ -424,6 +595,7 @@ func runPlan(srv *catalog.Server, p *hx.Plan, n int) []hx.Event {
 		dbNames[sl.dbid] = sl.db
 	}
 	sc.lateDB = map[int64]string{}
+	sc.dbs = map[int64]bool{}
 	if hx.B(p.Params, "latedb") {
 		// databases without any collection record in the initial catalog do not exist yet
 		used := map[int64]bool{1: true}
@@ -441,6 +613,7 @@ func runPlan(srv *catalog.Server, p *hx.Plan, n int) []hx.Event {
 	for id, name := range dbNames {
 		if _, late := sc.lateDB[id]; !late {
 			cw.PutDatabase(id, name, catalog.HybridTs(1))
+			sc.dbs[id] = true
 		}
 	}
 	initEv := []hx.Event{}
@@ -507,6 +680,7 @@ func runPlan(srv *catalog.Server, p *hx.Plan, n int) []hx.Event {
 		if isSentinelName(name) {
 			return true
 		}
+		w.offered(t.name, info)
 		for s := range t.sel {
 			if sl := w.slots[s]; sl.name == name && sl.db == db.Name {
 				return true
